@@ -265,6 +265,10 @@ impl<'a> Lexer<'a> {
                 self.expect(TokenType::RightBracket)?;
             }
             Some(c) => {
+                // an absolute row is a plain number: `R1C+1` is the name R1C plus one, not R1C1
+                if !c.is_ascii_digit() {
+                    return Err(self.set_error("Expected row number or '['", position));
+                }
                 absolute_row = true;
                 self.expect_char(c)?;
                 match self.consume_integer(c) {
@@ -298,6 +302,10 @@ impl<'a> Lexer<'a> {
                 self.expect(TokenType::RightBracket)?;
             }
             Some(c) => {
+                // an absolute column is a plain number (no sign)
+                if !c.is_ascii_digit() {
+                    return Err(self.set_error("Expected column number or '['", position));
+                }
                 absolute_column = true;
                 self.expect_char(c)?;
                 match self.consume_integer(c) {
